@@ -101,3 +101,15 @@ CLAIMS["C02"] = dict(
           "arithmetic deterministic per operation, libgomp's taskwait/barrier. Does not execute any schedule."),
     technique="OpenMP AST + CFG open-region analysis, interprocedural field-level effect summaries, sibling cross-check",
     design_ref="DESIGN.md section 3, C02 (R02a-R02h)")
+
+CLAIMS["C10"] = dict(
+    text=("Decides the ownership and uniformity facts that make 'only whole gap columns are inserted into a finished "
+          "group' possible: the interprocedural effect summary of create_msa_tree writes nothing under msa->sequences "
+          "except gap-count elements, and only via make_seq -> update_gaps; update_gaps only adds sums of new-vector "
+          "entries (counts never shrink), vectors hold 0 / +1 increments; make_seq applies one vector, unmodified, to "
+          "exactly the members [0, nsip) of each group with length and counts of the same member; do_align builds "
+          "sip[c] from all members of both children and nsip[c] as the sum."),
+    note=("Does not decide that update_gaps distributes the vector over the right slots (index arithmetic over run-time "
+          "arrays), nor the path encoding produced by the DP kernels."),
+    technique="interprocedural effect summary (who-may-write), store-form rule, exact affine loop ranges, argument agreement",
+    design_ref="DESIGN.md section 3, C10 (R10a-R10d)")
